@@ -48,6 +48,7 @@ VARIANTS = [
     ("C02", "mutant", P + "deviate.py", "                # any infinite value makes the variance NaN\n                self.varianceTimesEntries = float(\"nan\")\n", "", "variance stays finite after an infinite datum"),
     ("C02", "neutral", P + "average.py", "                elif math.isinf(q):\n                    self.mean = q  # mean becomes infinite with sign of q\n                else:\n                    pass  # mean is already infinite", "                elif math.isinf(q):\n                    self.mean = q  # mean becomes infinite with sign of q", "empty else removed"),
     # ---------------- C03
+    ("C03", "mutant", P + "sparselybin.py", "        neginfs = q <= LONG_MINUSINF\n        posinfs = q >= LONG_PLUSINF\n", "        neginfs = np.isneginf(q)\n        posinfs = np.isposinf(q)\n", "SparselyBin._numpy saturates only infinite rows again"),
     ("C03", "mutant", P + "average.py", "        elif ca_plus_cb > ca:  # the batch has positive weight (numpy.average cannot normalize a zero total)", "        elif ca_plus_cb > 0.0:", "Average._numpy averages a batch without positive weight again"),
     ("C03", "neutral", P + "average.py", "        elif ca_plus_cb > ca:  # the batch has positive weight (numpy.average cannot normalize a zero total)", "        elif ca_plus_cb - ca > 0.0:", "positive batch weight written as a difference"),
     ("C03", "mutant", P + "collection.py", "            if shape[0] is None and isinstance(x, Count):\n                waiting.append(x)\n            else:\n                x._numpy(data, weights, shape)", "            x._numpy(data, weights, shape)", "collections hand the batch to Counts before its length is known again"),
